@@ -185,13 +185,44 @@ MProperty(r) == /\ (r.oc = "ok" => (MReceiverOk(r) /\ r.got = MValue(r)))       
                 /\ (MReceiverOk(r) => r.oc = "ok")
 MBadProperty == SelectSeq(MRows, LAMBDA r : ~MProperty(r))
 
+(* user conversions (type_conversion<From, To>): a function with a To parameter is entered with a From only in an engine where the      *)
+(* conversion is registered, and then receives the CONVERTED object (To:42 from From:41), exactly once; a To argument reaches it as      *)
+(* itself (To:7), never through a mutable form when const; an overload taking the argument's own type wins; nothing else ever enters.   *)
+TRows == SelectSeq(Rows, LAMBDA r : r.k = "t")
+TForms == {"To", "cTo&", "To&", "To*", "cTo*", "spTo", "spcTo"}
+TMutable == {"To&", "To*", "spTo"}
+TArgs == [ Fobj |-> [bare |-> "From", const |-> FALSE, st |-> "own"], cFobj |-> [bare |-> "From", const |-> TRUE, st |-> "own"],
+           Fref |-> [bare |-> "From", const |-> FALSE, st |-> "ref"], Tobj |-> [bare |-> "To", const |-> FALSE, st |-> "own"],
+           cTobj |-> [bare |-> "To", const |-> TRUE, st |-> "own"], ivar |-> [bare |-> "int", const |-> FALSE, st |-> "own"],
+           svar |-> [bare |-> "string", const |-> FALSE, st |-> "own"] ]
+TAllowed(r, f) == LET a == TArgs[r.arg] IN
+   CASE f \in TForms -> \/ (a.bare = "To" /\ (f \in TMutable => ~a.const))
+                        \/ (a.bare = "From" /\ r.conv = 1)                               \* only through the registered conversion
+     [] f = "From" -> a.bare = "From"
+     [] f = "BV" -> TRUE
+TRecvOk(r) == LET a == TArgs[r.arg] IN
+   CASE r.entered \in TForms -> r.recv = (IF a.bare = "To" THEN "To:7" ELSE "To:42")      \* the very object, or the converted one
+     [] r.entered = "From" -> r.recv = "From:41"
+     [] r.entered = "BV" -> r.recv = "BV:" \o (IF a.bare \in {"From", "To"} THEN a.bare ELSE "other")
+TOverloads(r) == IF r.second = "" THEN {r.first} ELSE {r.first, r.second}
+TExact(r, f) == (f \in TForms /\ TArgs[r.arg].bare = "To" /\ TAllowed(r, f)) \/ (f = "From" /\ TArgs[r.arg].bare = "From")
+TProperty(r) ==
+  /\ r.n = (IF r.entered = "" THEN 0 ELSE 1)
+  /\ (r.entered = "" <=> r.oc # "ok")
+  /\ (r.entered # "" => r.entered \in TOverloads(r) /\ TAllowed(r, r.entered) /\ TRecvOk(r))
+  /\ ((\E f \in TOverloads(r) : TExact(r, f)) => (r.entered # "" /\ TExact(r, r.entered)))
+  /\ ((\A f \in TOverloads(r) : ~TAllowed(r, f)) => r.entered = "")
+TBadProperty == SelectSeq(TRows, LAMBDA r : ~TProperty(r))
+\* reported as drift, not as a violation: where the conversion is registered, a From reaches the forms that accept a temporary
+TBadTranscription == SelectSeq(TRows, LAMBDA r : r.second = "" /\ r.conv = 1 /\ TArgs[r.arg].bare = "From" /\ r.entered = "")
+
 (* each call enters exactly one overload exactly once - also when the entered function itself throws *)
 XRows == SelectSeq(Rows, LAMBDA r : r.k = "x")
 XBad == SelectSeq(XRows, LAMBDA r : r.n > 1)
 
 Show(s, n) == \A i \in 1..(IF Len(s) < n THEN Len(s) ELSE n) : PrintT(<<"BAD", s[i]>>)
-Counts == <<"rows", Len(Rows), "property", Len(UBadProperty) + Len(BBadProperty) + Len(CBadProperty) + Len(ABad) + Len(MBadProperty),
-            "transcription", Len(UBadTranscription) + Len(BBadTranscription) + Len(CBadTranscription)>>
+Counts == <<"rows", Len(Rows), "property", Len(UBadProperty) + Len(BBadProperty) + Len(CBadProperty) + Len(ABad) + Len(MBadProperty) + Len(TBadProperty),
+            "transcription", Len(UBadTranscription) + Len(BBadTranscription) + Len(CBadTranscription) + Len(TBadTranscription)>>
 \* the verdicts are written out so that the check can name the failing calls
 Verdicts == ndJsonSerialize(IOEnv.OUT,
    [i \in 1..Len(UBadProperty) |-> [why |-> "property", row |-> UBadProperty[i]]] \o
@@ -200,6 +231,8 @@ Verdicts == ndJsonSerialize(IOEnv.OUT,
    [i \in 1..Len(ABad) |-> [why |-> "arity", row |-> ABad[i]]] \o
    [i \in 1..Len(MBadProperty) |-> [why |-> "property", row |-> MBadProperty[i]]] \o
    [i \in 1..Len(XBad) |-> [why |-> "property", row |-> XBad[i]]] \o
+   [i \in 1..Len(TBadProperty) |-> [why |-> "property", row |-> TBadProperty[i]]] \o
+   [i \in 1..Len(TBadTranscription) |-> [why |-> "transcription", row |-> TBadTranscription[i]]] \o
    [i \in 1..Len(UBadTranscription) |-> [why |-> "transcription", row |-> UBadTranscription[i], predicted |-> UPredict(UBadTranscription[i])]] \o
    [i \in 1..Len(BBadTranscription) |-> [why |-> "transcription", row |-> BBadTranscription[i], predicted |-> BPredict(BBadTranscription[i])]] \o
    [i \in 1..Len(CBadTranscription) |-> [why |-> "transcription", row |-> CBadTranscription[i]]])
